@@ -111,7 +111,7 @@ func removeHeadersByPrefix(h http.Header, prefix string) {
 			continue
 		}
 		if strings.EqualFold(k[0:len(prefix)], prefix) {
-			h.Del(k)
+			delete(h, k)
 		}
 	}
 }
